@@ -3,9 +3,9 @@ CONSTANTS
   PRICE = {1, 3}
   QTY = {1, 2}
   FEE = {0, 1}
-  MARK = {1, 2, 5}
+  MARK <- MarkSigned
   MaxFills = 4
-INVARIANTS TypeOK SideSize Conservation FeesConserved
+INVARIANTS TypeOK AvgPositive SideSize Conservation FeesConserved
 PROPERTIES ExitIff Ids QmaxAvg FreshUnreal MarkOnlyUnreal
 VIEW View
 CHECK_DEADLOCK FALSE
